@@ -269,6 +269,25 @@ def role_claims(rng: Random, lines: list[tuple[str, str]], meta: dict[str, Any])
             out.insert(at, (dtm, frame))
             at += 1
             n += 1
+    # rival claims: two different devices named for one single-holder role (zone sensor, appliance control,
+    # DHW sensor / valve) - the first of them possibly a device that is never heard itself
+    for _ in range(rng.choice((0, 1, 1, 2))):
+        role = rng.choice(("04", "0F", "0F", "0D", "0E"))
+        idx_ = f"{rng.randrange(0, 12):02X}" if role == "04" else "00"
+        typ = {"04": ("34", "22", "04", "03"), "0F": ("13", "10"), "0D": ("07",), "0E": ("13",)}[role]
+        heard = [d for d in devs if d[:2] in typ]
+        ghost = f"{rng.choice(typ)}:{rng.randrange(90000, 99999):06d}"
+        pair = [ghost if rng.random() < 0.6 or not heard else rng.choice(heard), rng.choice(heard) if heard and rng.random() < 0.7 else f"{rng.choice(typ)}:{rng.randrange(80000, 89999):06d}"]
+        if rng.random() < 0.3:
+            pair.reverse()
+        for dev in pair:
+            frame = f"045 RP --- {ctl} 18:006402 --:------ 000C 006 {idx_}{role}00{dev_hex(dev)}"
+            at = min(len(out), at + rng.choice((0, 1, 5, 20)))
+            dtm = out[at - 1][0] if at else (out[0][0] if out else "2024-03-01T12:00:00.000000")
+            out.insert(at, (dtm, frame))
+            at += 1
+            n += 1
+        meta["rival_claims"] = meta.get("rival_claims", 0) + 1
     meta["ops"].append("role-claims")
     meta["role_claims"] = n
     return out
